@@ -185,8 +185,10 @@ def make_retry(framing, first):
             state["attempt"] += 1
             if state["attempt"] == 1:
                 state["pending"] = b"" if first == "nothing" else fr["other-unit"]
-            else:
+            elif state["attempt"] == 2:
                 state["pending"] = fr["full"]
+            else:
+                state["pending"] = b""         # the device answers once; a needless further attempt meets silence
             return len(request)
 
         def recv_hook(client, size):
@@ -473,6 +475,10 @@ def obligations(tier):
                 continue
             out.append(Obl("retry.%s.after-%s" % (framing, first), make_retry(framing, first), timeout=T, contracts=contracts[framing], lemmas=lem[framing],
                            bounds="%s client, retries=2 with the matching retry option: first attempt answered by %s, second by the right reply" % (framing, first)))
+    if tier == "quick":
+        # (the binary framing is otherwise a thorough-tier framing here: its retry_on_invalid path has its own decode_data)
+        out.append(Obl("retry.binary.after-other-unit", make_retry("binary", "other-unit"), timeout=T, contracts=contracts["binary"], lemmas=lem["binary"],
+                       bounds="binary client, retries=2 with retry_on_invalid: first attempt answered by another unit's frame, second by the right reply; units 1..247 symbolic"))
     for framing in (("tcp",) if tier == "quick" else ("tcp", "rtu")):
         for retries in ((0,) if tier == "quick" else (0, 1)):
             out.append(Obl("peerclose.%s.r%d" % (framing, retries), make_peerclose(framing, retries), timeout=T,
